@@ -166,6 +166,18 @@ class Defer:
             self.defer.get_command_result(),
             self.args)
 
+    def discard(self) -> None:
+        """Give up the deferred computation.
+
+        A result that is still in flight is collected and dropped, so
+        that the process is left without a pending command.
+        """
+        process = self.defer
+        if process is None or getattr(process, '_ended', False):
+            return
+        if process._pending_command:
+            process.get_command_result()
+
 
 class EmptyDefer(Defer):
     def __init__(self) -> None:
@@ -893,10 +905,13 @@ class Engine:
 
     def _remove_deleted_processes(self) -> None:
         '''Remove deleted processes from the front.'''
-        self.front = {
-            path: progress
-            for path, progress in self.front.items()
-            if path in self.process_paths}
+        for path in list(self.front):
+            if path not in self.process_paths:
+                update = self.front.pop(path)['update']
+                if update:
+                    # the process was deleted, or moved to another path
+                    # where it starts afresh, with an update in flight
+                    update[0].discard()
 
     def _advance_quiet_paths(self, quiet_paths: list) -> None:
         '''Bring quiet processes up to the global time.'''
